@@ -658,6 +658,72 @@ def random_uses(modname, src):
     return out
 
 
+# ------------------------------------------------------------------ size thresholds (branch coverage of the search)
+
+def _fold_int(e, env):
+    """integer value of a constant expression (literals, + - * ** //, names bound once to such), else None"""
+    if isinstance(e, ast.Constant) and type(e.value) is int:
+        return e.value
+    if isinstance(e, ast.Name) and e.id in env:
+        return env[e.id]
+    if isinstance(e, ast.BinOp):
+        a, b = _fold_int(e.left, env), _fold_int(e.right, env)
+        if a is None or b is None:
+            return None
+        try:
+            if isinstance(e.op, ast.Pow) and 0 <= b <= 64:
+                return a ** b
+            if isinstance(e.op, ast.Mult):
+                return a * b
+            if isinstance(e.op, ast.Add):
+                return a + b
+            if isinstance(e.op, ast.Sub):
+                return a - b
+            if isinstance(e.op, ast.FloorDiv) and b:
+                return a // b
+        except Exception:
+            return None
+    return None
+
+
+def size_thresholds(src):
+    """{function name: sorted integer constants that some comparison of the function tests a non-constant
+    quantity against} - the sizes at which the function changes branch (e.g. get_mog_threshold: 262144 from
+    `max_count = 512 ** 2; if pixel_count > max_count`)"""
+    tree = ast.parse(src)
+    out = {}
+    for fn in tree.body:
+        if not isinstance(fn, ast.FunctionDef):
+            continue
+        env = {}
+        stores = {}
+        for n in ast.walk(fn):
+            if isinstance(n, ast.Name) and isinstance(n.ctx, ast.Store):
+                stores[n.id] = stores.get(n.id, 0) + 1
+        defaults = fn.args.defaults
+        for a, d in zip(fn.args.args[len(fn.args.args) - len(defaults):], defaults):
+            v = _fold_int(d, {})
+            if v is not None:
+                env[a.arg] = v
+        for _ in range(3):
+            for n in ast.walk(fn):
+                if (isinstance(n, ast.Assign) and len(n.targets) == 1 and isinstance(n.targets[0], ast.Name)
+                        and stores.get(n.targets[0].id) == 1):
+                    v = _fold_int(n.value, env)
+                    if v is not None:
+                        env[n.targets[0].id] = v
+        cs = set()
+        for n in ast.walk(fn):
+            if isinstance(n, ast.Compare):
+                sides = [n.left] + list(n.comparators)
+                vals = [_fold_int(x, env) for x in sides]
+                if any(v is None for v in vals):
+                    cs.update(v for v in vals if v is not None and v >= 2)
+        if cs:
+            out[fn.name] = sorted(cs)
+    return out
+
+
 def translate(src, smooth_src=None, otsu_src=None):
     tree = ast.parse(src)
     fns = {n.name: n for n in tree.body if isinstance(n, ast.FunctionDef)}
